@@ -165,6 +165,7 @@ type fieldKey struct {
 type rw struct {
 	fset           *token.FileSet
 	info           *types.Info
+	shared         map[types.Object]bool // function-level variables that a goroutine started in the function captures
 	pkg            *types.Package
 	file           *ast.File
 	fname          string
@@ -194,6 +195,7 @@ func instrumentPackage(fset *token.FileSet, imp types.Importer, pj pkgJob, overl
 		Types:      map[ast.Expr]types.TypeAndValue{},
 		Uses:       map[*ast.Ident]types.Object{},
 		Defs:       map[*ast.Ident]types.Object{},
+		Scopes:     map[ast.Node]*types.Scope{},
 	}
 	pkg, _ := conf.Check(pj.path, fset, files, info)
 	if len(terrs) > 0 {
@@ -211,8 +213,9 @@ func instrumentPackage(fset *token.FileSet, imp types.Importer, pj pkgJob, overl
 			return true
 		})
 	}
+	shared := sharedLocals(files, info)
 	for i, af := range files {
-		r := &rw{fset: fset, info: info, pkg: pkg, file: af, fname: filepath.Base(pj.files[i]), written: written}
+		r := &rw{fset: fset, info: info, pkg: pkg, file: af, fname: filepath.Base(pj.files[i]), written: written, shared: shared}
 		for _, d := range af.Decls {
 			if fd, ok := d.(*ast.FuncDecl); ok && fd.Body != nil {
 				r.curFunc = fd.Name.Name
@@ -536,6 +539,51 @@ func (r *rw) trackedField(sel *ast.SelectorExpr) (fieldKey, bool) {
 }
 
 // trackedVar returns the key of an identifier naming a package-level variable of this package.
+// sharedLocals finds the variables declared at function level (parameters, results, top-level declarations of the
+// body) that are used inside a function literal started with `go` in that function.
+func sharedLocals(files []*ast.File, info *types.Info) map[types.Object]bool {
+	out := map[types.Object]bool{}
+	for _, af := range files {
+		var stack []*ast.FuncType
+		var visit func(n ast.Node) bool
+		visit = func(n ast.Node) bool {
+			switch x := n.(type) {
+			case *ast.FuncDecl:
+				if x.Body != nil {
+					stack = append(stack, x.Type)
+					ast.Inspect(x.Body, visit)
+					stack = stack[:len(stack)-1]
+				}
+				return false
+			case *ast.FuncLit:
+				stack = append(stack, x.Type)
+				ast.Inspect(x.Body, visit)
+				stack = stack[:len(stack)-1]
+				return false
+			case *ast.GoStmt:
+				fl, ok := x.Call.Fun.(*ast.FuncLit)
+				if !ok || len(stack) == 0 {
+					return true
+				}
+				fscope := info.Scopes[stack[len(stack)-1]]
+				ast.Inspect(fl.Body, func(m ast.Node) bool {
+					if id, ok := m.(*ast.Ident); ok {
+						if v, ok := info.Uses[id].(*types.Var); ok && !v.IsField() && fscope != nil && v.Parent() == fscope {
+							if _, isChan := v.Type().Underlying().(*types.Chan); !isChan {
+								out[v] = true
+							}
+						}
+					}
+					return true
+				})
+			}
+			return true
+		}
+		ast.Inspect(af, visit)
+	}
+	return out
+}
+
 func (r *rw) trackedVar(id *ast.Ident) (fieldKey, bool) {
 	o, ok := r.info.Uses[id]
 	if !ok {
@@ -818,6 +866,11 @@ func (r *rw) accesses(nodes ...ast.Node) []ast.Stmt {
 					}
 				}
 			case *ast.Ident:
+				if o := r.info.Uses[x]; o != nil && r.shared[o] {
+					// a variable of the enclosing function that a goroutine started there captures: memory shared
+					// between the two (no scheduling point of its own: the monitor judges by happens-before)
+					outS = append(outS, &ast.ExprStmt{X: r.call("AccessNoYield", &ast.UnaryExpr{Op: token.AND, X: ident(x.Name)}, strLit("local "+x.Name), boolLit(writes[x]), strLit(r.site(x.Pos())))})
+				}
 				if k, ok := r.trackedVar(x); ok && r.written[k] {
 					outS = append(outS, &ast.ExprStmt{X: r.call("Access", strLit("pkgvar:"+r.pkg.Name()+"."+k.field), strLit(k.field), boolLit(writes[x]), strLit(r.site(x.Pos())))})
 				}
